@@ -72,7 +72,8 @@ def _is_logging(st) -> bool:
     if isinstance(st, ast.Expr) and isinstance(st.value, ast.Call) and isinstance(st.value.func, ast.Attribute) \
             and isinstance(st.value.func.value, ast.Name) and st.value.func.value.id.startswith("_LOGGER"):
         return True
-    if isinstance(st, ast.If) and is_name(st.test, "debug") and not st.orelse and all(_is_logging(x) for x in st.body):
+    if isinstance(st, ast.If) and not st.orelse and all(_is_logging(x) for x in st.body) and (
+            is_name(st.test, "debug") or ast.unparse(st.test).startswith("_LOGGER")):
         return True
     if isinstance(st, ast.Assign) and len(st.targets) == 1 and is_name(st.targets[0], "debug"):
         return True
@@ -159,9 +160,10 @@ def on_data_shape(fn: ast.FunctionDef):
     if not (isinstance(cb, ast.Attribute) and cb.attr == "_send_responses" and is_name(a1, "remote_addr") and is_name(a2, "responses")):
         raise Untranslatable("call_at does not schedule _send_responses(remote_addr, responses)")
     # when = self._loop.time() + randrange(LO, (delay * S) - OFF) / S
-    if not (isinstance(when, ast.BinOp) and isinstance(when.op, ast.Add) and isinstance(when.left, ast.Call)
-            and isinstance(when.left.func, ast.Attribute) and when.left.func.attr == "time"):
-        raise Untranslatable("call_at time is not `<loop>.time() + ...`")
+    if not (isinstance(when, ast.BinOp) and isinstance(when.op, ast.Add) and ast.unparse(when.left) == "self._loop.time()"):
+        raise Untranslatable("call_at time is not `self._loop.time() + ...` (the loop's own clock)")
+    if ast.unparse(call.func) != "self._loop.call_at":
+        raise Untranslatable("the delayed send is not scheduled with self._loop.call_at")
     frac = when.right
     if not (isinstance(frac, ast.BinOp) and isinstance(frac.op, ast.Div) and isinstance(frac.left, ast.Call)
             and is_name(frac.left.func, "randrange") and len(frac.left.args) == 2):
@@ -205,12 +207,70 @@ def dict_keys(node) -> list:
     return keys
 
 
+def _skeleton(fn) -> list:
+    return [ast.unparse(st) for st in _strip_logging(fn.body)]
+
+
+def value_pins(server: ast.Module, responder: ast.ClassDef, announcer: ast.ClassDef) -> None:
+    """Which VALUE goes where (ST vs USN, whose UDN), the version loop, the send loop, the byebye loop: the model
+    transcribes these by hand; any other shape (logging apart) must not translate silently."""
+    want = {
+        "_build_response_rootdevice": ["return self._build_response('upnp:rootdevice', f'{self.device.udn}::upnp:rootdevice')"],
+        "_build_responses_device_udn": ["return self._build_response(device.udn, f'{device.udn}')"],
+        "_build_responses_device_type": ["return self._build_response(device_type or device.device_type, "
+                                         "f'{device.udn}::{device.device_type}')"],
+        "_build_responses_service": ["return self._build_response(service_type or service.service_type, "
+                                     "f'{service.device.udn}::{service.service_type}')"],
+        "_send_responses": ["assert self._response_socket, 'Socket not initialized'",
+                            "for response in responses:\n    self._response_socket.sendto(response, remote_addr)"],
+        "_match_type_versions": [
+            "type_ver_lower: str = type_ver.lower()",
+            "try:\n    base, max_ver = type_ver_lower.rsplit(':', 1)\n    max_ver_i = int(max_ver)\n"
+            "    for ver in range(max_ver_i + 1):\n        if f'{base}:{ver}' == search_target:\n            return True\n"
+            "except ValueError:\n    if type_ver_lower == search_target:\n        return True",
+            "return False"],
+        "_matched_devices_by_type": ["return [device for device in self.device.all_devices "
+                                     "if self._match_type_versions(device.device_type, search_target)]"],
+        "_matched_services_by_type": ["return [service for service in self.device.all_services "
+                                      "if self._match_type_versions(service.service_type, search_target)]"],
+    }
+    for name, exp in want.items():
+        got = _skeleton(find_func(responder.body, name))
+        if got != exp:
+            raise Untranslatable(f"{name} is not the modelled shape: " + " | ".join(got).replace("\n", " ")[:300])
+    got = _skeleton(find_func(announcer.body, "_send_byebyes"))
+    exp = ["assert self._transport", "start_line = 'NOTIFY * HTTP/1.1'",
+           "advertisements = _build_advertisements(self.target, self.device, NotificationSubType.SSDP_BYEBYE)",
+           "for headers in advertisements:\n    packet = build_ssdp_packet(start_line, headers)\n"
+           "    protocol = cast(SsdpProtocol, self._transport.get_protocol())\n"
+           "    protocol.send_ssdp_packet(packet, self.target)"]
+    if got != exp:
+        raise Untranslatable("_send_byebyes is not the modelled shape: " + " | ".join(got).replace("\n", " ")[:300])
+    # _build_advertisements: the (NT, USN) value expressions, in order, and the two loops
+    ba = find_func(server.body, "_build_advertisements")
+    pairs = []
+    for node in ast.walk(ba):
+        if isinstance(node, ast.Call) and is_name(node.func, "CaseInsensitiveDict"):
+            pairs.append((node.lineno, tuple((k.arg, ast.unparse(k.value)) for k in node.keywords)))
+    pairs = [p for _, p in sorted(pairs)]
+    exp_pairs = [(("NT", "'upnp:rootdevice'"), ("USN", "f'{root_device.udn}::upnp:rootdevice'")),
+                 (("NT", "f'{device.udn}'"), ("USN", "f'{device.udn}'")),
+                 (("NT", "f'{device.device_type}'"), ("USN", "f'{device.udn}::{device.device_type}'")),
+                 (("NT", "f'{service.service_type}'"), ("USN", "f'{service.device.udn}::{service.service_type}'"))]
+    if pairs != exp_pairs:
+        raise Untranslatable(f"_build_advertisements: (NT, USN) values are not the modelled ones: {pairs}")
+    loops = [(ast.unparse(n.target), ast.unparse(n.iter)) for n in ast.walk(ba) if isinstance(n, ast.For)]
+    if sorted(loops) != sorted([("device", "root_device.all_devices"), ("service", "root_device.all_services")]):
+        raise Untranslatable(f"_build_advertisements: loops are not the modelled ones: {loops}")
+
+
 @extract.generator("C13Server")
 def gen(repo: Path) -> str:
     server = extract.parse(repo, "async_upnp_client/server.py")
     ssdp = extract.parse(repo, "async_upnp_client/ssdp.py")
     responder = find_class(server, "SsdpSearchResponder")
     cap, lo, off, guard_truthy, send_now_also = on_data_shape(find_func(responder.body, "_on_data"))
+    value_pins(server, responder, find_class(server, "SsdpAdvertisementAnnouncer"))
 
     # _build_response: return build_ssdp_packet("HTTP/1.1 200 OK", {...})
     br = find_func(responder.body, "_build_response")
